@@ -13,7 +13,7 @@ import (
 )
 
 // Term is one node of a term tree.  Tag is one of
-// q ninf pi x u b ite   (see spec/Expr.tla).
+// q ninf pi x z u b ite   (see spec/Expr.tla).
 type Term struct {
 	Tag  string
 	Fn   string  // unary function or binary operation
@@ -80,6 +80,17 @@ func FromValue(v interface{}) (*Term, error) {
 			return nil, e
 		}
 		t.I = int(f)
+		t.size = 1
+	case "z":
+		// a scalar re-activated as variable I; N is the identifier of the leaf
+		f, e := num(1)
+		if e != nil {
+			return nil, e
+		}
+		t.I = int(f)
+		if t.N, err = num(2); err != nil {
+			return nil, err
+		}
 		t.size = 1
 	case "u":
 		if len(a) != 3 {
@@ -153,6 +164,8 @@ func (t *Term) write(sb *strings.Builder) {
 		sb.WriteString("pi")
 	case "x":
 		fmt.Fprintf(sb, "x%d", t.I)
+	case "z":
+		fmt.Fprintf(sb, "z%d@%g", t.I, t.N)
 	case "u":
 		sb.WriteString(t.Fn)
 		sb.WriteByte('(')
